@@ -480,6 +480,55 @@ def e1_equality_coverage(prog):
                             if fl:
                                 read[a.root].add(names[fl[0]] if fl[0] < len(names) else str(fl[0]))
         r.inst('%s::eq reads self%s other%s' % (path, sorted(read[1]), sorted(read[2])))
+        # each field must take part in a *logical* comparison: PartialEq / Iterator::eq / ==, with operands that are
+        # the two fields themselves, possibly through order-preserving adaptors (no layout-dependent view such as
+        # VecDeque::as_slices)
+        ADAPT = ('deref', 'iter', 'into_iter', 'as_ref', 'borrow', 'as_slice', 'copied', 'cloned', 'by_ref')
+        body = f.body
+
+        def field_of(op, depth=0):
+            l = op_local(op)
+            pl = op_place(op)
+            hops = 0
+            while hops < 12:
+                hops += 1
+                if pl is None:
+                    return None
+                a = normalize_access(access_of_place(body, pl))
+                fl = [st[1] for st in a.steps if isinstance(st, tuple) and st[0] == 'f']
+                if a.root in (1, 2) and fl:
+                    return (a.root, names[fl[0]] if fl[0] < len(names) else str(fl[0]), None)
+                d0 = single_def(body, a.root)
+                if d0 and d0[0] == 'call' and d0[2]['args']:
+                    nm = d0[2]['f'].get('name')
+                    if nm in ADAPT:
+                        pl = op_place(d0[2]['args'][0])
+                        continue
+                    # some other call: report which
+                    inner = op_place(d0[2]['args'][0])
+                    if inner is not None:
+                        a2 = normalize_access(access_of_place(body, inner))
+                        fl2 = [st[1] for st in a2.steps if isinstance(st, tuple) and st[0] == 'f']
+                        if a2.root in (1, 2) and fl2:
+                            return (a2.root, names[fl2[0]] if fl2[0] < len(names) else str(fl2[0]), nm)
+                return None
+            return None
+        compared = {}
+        for b, t in body.calls(lambda c: (c.get('trait') in ('core::cmp::PartialEq', 'core::iter::Iterator') and c['name'] in ('eq', 'ne')) and len(c) > 0):
+            if len(t['args']) == 2:
+                x, y = field_of(t['args'][0]), field_of(t['args'][1])
+                if x and y and x[1] == y[1] and {x[0], y[0]} == {1, 2}:
+                    compared.setdefault(x[1], []).append(x[2] or y[2])
+        for b, i, s2 in body.stmts():
+            if s2['k'] == 'assign' and s2['rv']['k'] == 'binop' and s2['rv']['op'] in ('Eq', 'Ne'):
+                x, y = field_of(s2['rv']['a']), field_of(s2['rv']['b'])
+                if x and y and x[1] == y[1] and {x[0], y[0]} == {1, 2}:
+                    compared.setdefault(x[1], []).append(x[2] or y[2])
+        for fld in fields:
+            via = compared.get(fld)
+            if via and all(v is not None for v in via):
+                r.viol('E1', '%s/field-compared-through/%s/%s' % (path, fld, via[0]), f.loc(),
+                       'equality of %s compares `%s` only through %s(), a representation-dependent view: logically equal values (e.g. a clone) can compare unequal' % (path.split('::')[-1], fld, via[0]))
         for fld in fields:
             if fld == 'identifier' and path.endswith('Location'):
                 pass
